@@ -119,7 +119,10 @@ func (b *Batch) Get(key []byte) ([]byte, error) {
 		if logRecord.Type == datafile.LogRecordDeleted {
 			return nil, ErrKeyNotFound
 		}
-		return logRecord.Value, nil
+		// 返回暂存值的副本, 调用方修改返回的切片不得影响批处理中暂存的数据
+		value := make([]byte, len(logRecord.Value))
+		copy(value, logRecord.Value)
+		return value, nil
 	}
 
 	// 记录未缓存则执行查询
